@@ -296,6 +296,7 @@ func pick(r *rand.Rand, ws []weighted) string {
 var cpMenu = []weighted{
 	{"honest", 62}, {"phantom", 5}, {"wrongkey", 3}, {"otherlogkey", 4}, {"wrongorigin", 4},
 	{"otherlog_verbatim", 4}, {"mutated", 10}, {"garbage", 3}, {"unknown_id", 3}, {"samekeyname_foreign", 2},
+	{"replay_accepted_elsewhere", 3},
 }
 
 var oldMenu = []weighted{
@@ -315,6 +316,15 @@ type Session struct {
 	// WitnessSigners is the number of keys the witness signs with (needed to
 	// flag notes that would exceed the note library's line limit once cosigned).
 	WitnessSigners int
+	// Pool points at the byte strings this witness has accepted or returned so far, for any
+	// log (shared by all sessions of one witness): material for cross-log replays.
+	Pool *[]PoolEntry
+}
+
+// PoolEntry is a checkpoint the witness accepted (as submitted) or handed out (cosigned).
+type PoolEntry struct {
+	Log int
+	Raw []byte
 }
 
 func (u *Universe) sizeNear(r *rand.Rand, cur uint64) uint64 {
@@ -481,6 +491,23 @@ func (u *Universe) Next(r *rand.Rand, l *Log, v View, s *Session) *Request {
 		} else {
 			ob := r.IntN(len(other.Branches))
 			q.CP = other.Honest(ob, size)
+		}
+	case "replay_accepted_elsewhere":
+		// exact bytes this witness already accepted or returned for ANOTHER log, now under this log's ID
+		var cands []PoolEntry
+		if s.Pool != nil {
+			for _, e := range *s.Pool {
+				if e.Log != l.Idx {
+					cands = append(cands, e)
+				}
+			}
+		}
+		if len(cands) == 0 {
+			q.CPKind = "honest"
+			q.Tree, q.Branch, q.Size = true, b, size
+			q.CP = l.Note(r, l.Key, text(l.Origin, d.Ext...), Deco{})
+		} else {
+			q.CP = append([]byte{}, cands[r.IntN(len(cands))].Raw...)
 		}
 	case "mutated":
 		base := l.Note(r, l.Key, text(l.Origin, d.Ext...), Deco{})
